@@ -6,6 +6,7 @@ import (
 	"errors"
 	"fmt"
 	"sort"
+	"sync"
 
 	"github.com/fxamacker/cbor/v2"
 	"github.com/onflow/atree"
@@ -29,21 +30,28 @@ func init() {
 }
 
 type Stats struct {
-	C map[string]int // counters: step kinds, reach probes, fault kinds fired
+	mu sync.Mutex
+	C  map[string]int // counters: step kinds, reach probes, fault kinds fired
 }
 
 func NewStats() *Stats { return &Stats{C: map[string]int{}} }
 func (s *Stats) Inc(k string) {
 	if s != nil {
+		s.mu.Lock()
 		s.C[k]++
+		s.mu.Unlock()
 	}
 }
 func (s *Stats) Add(k string, n int) {
 	if s != nil && n != 0 {
+		s.mu.Lock()
 		s.C[k] += n
+		s.mu.Unlock()
 	}
 }
 func (s *Stats) Merge(o *Stats) {
+	s.mu.Lock()
+	defer s.mu.Unlock()
 	for k, v := range o.C {
 		s.C[k] += v
 	}
